@@ -402,6 +402,47 @@ pub fn flatten_oracle(o: &Outcome, s: &Scen) -> Option<(String, serde_json::Valu
       return Some(("inner_order_broken".into(), json!({"saw": items})));
     }
   }
+  // limit: tracked inners subscribed and not yet terminated / unsubscribed, at every log position
+  if let Kind::Pipe(c) = &s.kind {
+    let limit = c.ops.iter().find_map(|op| match op {
+      Op::MergeAll(n, _) => Some(*n),
+      Op::ConcatAll(_) | Op::ConcatMap(_) => Some(1),
+      _ => None,
+    });
+    if let Some(limit) = limit {
+      let mut live: std::collections::HashSet<u32> = Default::default();
+      for e in &o.evs {
+        if e.id >= 10_000 {
+          match &e.k {
+            K::Subscribed => {
+              live.insert(e.id);
+            }
+            K::N(n) if n.is_terminal() => {
+              live.remove(&e.id);
+            }
+            K::UnsubCall => {
+              live.remove(&e.id);
+            }
+            _ => {}
+          }
+          if live.len() > limit {
+            return Some(("limit_exceeded".into(), json!({"why": format!("{} inner observables subscribed at once, limit {}", live.len(), limit)})));
+          }
+        }
+      }
+    }
+  }
+  // early completion: when the output completed, the outer's complete() had
+  // been called and every inner subscribed so far had completed
+  if let Some(c) = o.evs.iter().find(|e| e.id == 1 && matches!(e.k, K::N(N::Complete))).map(|e| e.seq) {
+    let outer_called = o.evs.iter().any(|e| e.seq < c && matches!(e.k, K::Mark("term_call", 0)));
+    let open_inner = o.evs.iter().filter(|e| e.id >= 10_000 && e.seq < c && matches!(e.k, K::Subscribed)).any(|sub| {
+      !o.evs.iter().any(|e| e.id == sub.id && e.seq < c && matches!(e.k, K::N(N::Complete)))
+    });
+    if !outer_called || open_inner {
+      return Some(("completion_early".into(), json!({"why": format!("the merged stream completed while the outer had {}completed and an inner was {}still open", if outer_called { "" } else { "not " }, if open_inner { "" } else { "not " }), "saw": jn(&out)})));
+    }
+  }
   // completion: outer completed, every inner that was subscribed completed,
   // every outer item got its inner subscribed, nobody unsubscribed or failed
   let unsubbed = o.evs.iter().any(|e| matches!(e.k, K::Mark("unsub_call", _)));
@@ -523,8 +564,10 @@ pub fn random_scen(r: &mut Rng, family: usize) -> Scen {
     }
     9 => {
       // merge_all_threads: thread 0 drives the outer (indices), others the hot inners
+      // 2-3 hot inners (so that inners really queue up behind the limit), limit biased to 1
+      let nt = 3 + r.below(2);
       let k = nt - 1;
-      let limit = 1 + r.below(k + 1);
+      let limit = if r.chance(1, 2) { 1 } else { 1 + r.below(k + 1) };
       let table: Vec<Chain> = (0..k).map(|i| Chain::new(Src::Hot(i + 1), vec![Op::Spy(20 + i as u32)])).collect();
       let chain = Chain::new(Src::Hot(0), vec![Op::Map(MapF::Add(-1001)), Op::MergeAll(limit, table)]);
       // outer items are (1)*1000+counter -> map to index counter-1
@@ -1045,5 +1088,111 @@ pub fn systematic_families(
       rep.count("systematic_scenarios", 1);
       rep.set("thread_scenarios_covered", s.name);
     }
+  }
+}
+
+// ---------------------------------------------------------------------------
+// linearizability of the thread-safe two-input combinators: the observed
+// output must be what the timeline model allows for SOME total order of the
+// concurrent calls that respects their call/return stamps
+// ---------------------------------------------------------------------------
+
+pub fn linearizable(o: &Outcome, s: &Scen, opname: &str) -> Option<(String, serde_json::Value)> {
+  #[derive(Clone)]
+  struct OpRec {
+    thread: usize,
+    call: u64,
+    ret: u64,
+    input: usize,
+    n: N,
+  }
+  if s.threads.iter().flatten().any(|op| !matches!(op, TOp::Next(_) | TOp::Complete(_) | TOp::Error(_))) {
+    return None;
+  }
+  let mut ops: Vec<OpRec> = vec![];
+  for (ti, script) in s.threads.iter().enumerate() {
+    let mine: Vec<&Ev> = o
+      .evs
+      .iter()
+      .filter(|e| e.id == CALL + ti as u32 && matches!(e.k, K::Mark("next_call", _) | K::Mark("next_ret", _) | K::Mark("term_call", _) | K::Mark("term_ret", _)))
+      .collect();
+    let mut cursor = 0usize;
+    for op in script {
+      // next (call, ret) pair of this thread
+      let call = mine.get(cursor).map(|e| e.seq);
+      let ret = mine.get(cursor + 1).map(|e| e.seq);
+      cursor += 2;
+      let Some(call) = call else { break };
+      let (input, n) = match op {
+        TOp::Next(k) => {
+          let v = match mine.get(cursor - 2).map(|e| &e.k) {
+            Some(K::Mark("next_call", v)) => *v,
+            _ => return None,
+          };
+          (*k, N::Next(V::I(v)))
+        }
+        TOp::Complete(k) => (*k, N::Complete),
+        TOp::Error(k) => (*k, N::Err(7 + *k as i32)),
+        _ => unreachable!(),
+      };
+      ops.push(OpRec { thread: ti, call, ret: ret.unwrap_or(u64::MAX), input, n });
+    }
+  }
+  let observed = notes(&o.evs, 1);
+  let mut found = false;
+  let mut tried = 0usize;
+  fn dfs(ops: &[OpRec], placed: &mut Vec<bool>, order: &mut Vec<usize>, opname: &str, observed: &[N], found: &mut bool, tried: &mut usize) {
+    if *found || *tried > 200_000 {
+      return;
+    }
+    if order.len() == ops.len() {
+      *tried += 1;
+      let tl: Vec<(usize, N)> = order.iter().map(|i| (ops[*i].input, ops[*i].n.clone())).collect();
+      if crate::model::two_input_allowed(opname, &tl).iter().any(|a| a == observed) {
+        *found = true;
+      }
+      return;
+    }
+    for i in 0..ops.len() {
+      if placed[i] {
+        continue;
+      }
+      // per-thread program order
+      if (0..ops.len()).any(|j| !placed[j] && ops[j].thread == ops[i].thread && ops[j].call < ops[i].call) {
+        continue;
+      }
+      // real-time order: nothing unplaced returned before this one was called
+      if (0..ops.len()).any(|j| !placed[j] && j != i && ops[j].ret < ops[i].call) {
+        continue;
+      }
+      placed[i] = true;
+      order.push(i);
+      dfs(ops, placed, order, opname, observed, found, tried);
+      order.pop();
+      placed[i] = false;
+    }
+  }
+  dfs(&ops, &mut vec![false; ops.len()], &mut vec![], opname, &observed, &mut found, &mut tried);
+  if found || tried > 200_000 {
+    return None;
+  }
+  Some((
+    "not_linearizable".into(),
+    json!({"why": format!("no total order of the {} concurrent calls consistent with their call/return stamps makes the {} model produce the observed output", ops.len(), opname),
+           "observed": jn(&observed),
+           "calls": ops.iter().map(|r| format!("t{} [{}..{}] input{} {:?}", r.thread, r.call, if r.ret == u64::MAX { 0 } else { r.ret }, r.input, r.n)).collect::<Vec<_>>()}),
+  ))
+}
+
+pub fn two_input_name(s: &Scen) -> Option<&'static str> {
+  match s.name {
+    "merge_threads" => Some("merge"),
+    "zip_threads" => Some("zip"),
+    "combine_latest_threads" => Some("combine_latest"),
+    "with_latest_from_threads" => Some("with_latest_from"),
+    "take_until_threads" => Some("take_until"),
+    "skip_until_threads" => Some("skip_until"),
+    "sample_threads" => Some("sample"),
+    _ => None,
   }
 }
